@@ -291,7 +291,11 @@ public:
     template<typename T>
     future<T> run(async<T> &fn) {
         return [&](auto promise) {
-            resume(fn.start(promise));
+            //the closure owns the coroutine and the promise until a worker starts it; if the pool
+            //is stopped before that, destroying the closure destroys the frame and drops the promise
+            run_detached([fn = std::move(fn), promise = std::move(promise)]() mutable {
+                fn.start(promise);
+            });
         };
     }
 
